@@ -6,6 +6,7 @@ import (
 	"context"
 	"net"
 
+	"tunnox-core/internal/core/types"
 	"tunnox-core/internal/packet"
 )
 
@@ -44,4 +45,11 @@ func (s *SessionManager) VerifBridgeIDs() []string {
 		ids = append(ids, id)
 	}
 	return ids
+}
+
+// VerifHandleCrossNodeTarget: the cross-node branch of handleTunnelOpen (the caller has looked the
+// tunnel up successfully): the real polling lookup, processCrossNodeForward, handleLocalBridgeWait /
+// forwardToSourceNode.
+func (s *SessionManager) VerifHandleCrossNodeTarget(req *packet.TunnelOpenRequest, conn *types.Connection) error {
+	return s.handleCrossNodeTargetConnection(req, conn, s.extractNetConn(conn))
 }
